@@ -965,3 +965,10 @@ def finish(tier, rep: Report):
         if not c.get(k, 0):
             fails.append("no mesh of kind " + k)
     return fails
+
+
+
+def stale_variant(task, tier):
+    """Tasks that are also run on meshes with a stale attribute blackboard (mc/families.py STALE; the runner appends
+    ':stale_attribute_blackboard' to the input class of anything found there)."""
+    return bool(task.get("kind") == "grid" or (task.get("kind") == "graph" and task.get("nmax", 9) <= 4) or (task.get("kind") == "surf" and task.get("family") == "surf<=4"))
